@@ -14,7 +14,9 @@ structure Pt where
 deriving DecidableEq, Repr, Inhabited
 
 /-- `Point::cmp` (`point.rs:149-153`): by `y`, then by `x` -/
-def Pt.cmp (a b : Pt) : Ordering := (compare a.y b.y).then (compare a.x b.x)
+def Pt.cmp (a b : Pt) : Ordering :=
+  if a.y < b.y then .lt else if b.y < a.y then .gt
+  else if a.x < b.x then .lt else if b.x < a.x then .gt else .eq
 
 def Pt.lt (a b : Pt) : Bool := a.cmp b == .lt
 def Pt.le (a b : Pt) : Bool := a.cmp b != .gt
@@ -113,7 +115,9 @@ def cmpOptInt : Option Int → Option Int → Ordering
   | none, some _ => .lt
   | some a, some b => compare a b
 
-def Cell.cmp (a b : Cell) : Ordering := (compare a.y b.y).then (compare a.x b.x)
+def Cell.cmp (a b : Cell) : Ordering :=
+  if a.y < b.y then .lt else if b.y < a.y then .gt
+  else if a.x < b.x then .lt else if b.x < a.x then .gt else .eq
 
 end Svgbob
 
